@@ -109,7 +109,7 @@ def make_case(args):
         kw["num_workers"] = nw
     dch = da.chunk(ch)
     auxch = {k: v.chunk({d: ch[d] for d in v.dims}) if rng.random() < 0.5 else v for k, v in aux.items()}
-    for op in rng.sample(sorted(C), 6):
+    for op in rng.sample(sorted(C), 5) + [rng.choice(sorted(opcat.WATERSHED))]:
         rec = dict(op=op, icase=icase, chunks={k: (v if not isinstance(v, tuple) else list(v)) for k, v in ch.items()}, scheduler=sched,
                    workers=nw, dims=list(da.dims), shape=[int(da.sizes[d]) for d in da.dims],
                    spectral_split=bool(ch.get("freq", -1) != -1 or ch.get("dir", -1) != -1))
